@@ -442,7 +442,7 @@ func (ctx Ctx) packageMethod(f *ast.SelectorExpr,
 	//  GooseLang, so it's ok to skip the arguments.
 	//
 	// See https://github.com/mit-pdos/goose-nfsd/blob/master/util/util.go
-	if isIdent(f.X, "util") && f.Sel.Name == "DPrintf" {
+	if isIdent(f.X, "util") && f.Sel.Name == "DPrintf" && len(args) >= 2 {
 		return coq.NewCallExpr(coq.GallinaIdent("util.DPrintf"),
 			ctx.expr(args[0]),
 			ctx.expr(args[1]),
